@@ -123,6 +123,23 @@ theorem chunk_roundtrip (d0 : BDoc) (ds : List BDoc)
     intro d hd
     exact restoreDoc_sim d0 d (hsim d hd) (hds d hd)
 
+/-- **End to end, for the base collector.**  Add `d0` and then any documents `ds` of its schema
+(at most the chunk capacity) to a fresh collector: every Add is accepted, `Resolve` produces one
+metric chunk, and decoding that chunk's payload yields exactly `d0 :: ds` with the non-metric
+leaves removed, in order. -/
+theorem base_collector_roundtrip (n : Nat) (d0 : BDoc) (ds : List BDoc) (hroom : ds.length ≤ n)
+    (hw : WFDoc d0) (hl : (serDoc d0).length < 2 ^ 31) (hts : NoTs d0)
+    (hsim : ∀ d ∈ ds, SimDoc d0 d) (hd0 : DatesOk d0) (hds : ∀ d ∈ ds, DatesOk d)
+    (hnm : (vals d0).length < 2 ^ 32) (hn : ds.length < 2 ^ 32)
+    (hsz : (vals d0).length * ds.length < 2 ^ 64) :
+    ∃ out c, (ds.foldl (fun (c : Better) d => (c.add d).1) (({ maxDeltas := n } : Better).add d0).1).resolve
+        = some [out] ∧
+      decodePayload out.payload = .ok c ∧ c.structured = (d0 :: ds).map project := by
+  obtain ⟨h1, h2, h3, h4, _, h6, _⟩ := better_adds n d0 ds hroom hsim
+  obtain ⟨c, hc, hstr⟩ := chunk_roundtrip d0 ds hw hl hts hsim hd0 hds hnm hn hsz
+  refine ⟨.chunk (tsDoc d0) d0 (vals d0) (ds.map vals), c, ?_, hc, hstr⟩
+  simp only [Better.resolve, h1, h4, h2, h3, h6]
+
 /-! non-vacuity: `{a: 5, s: "x", n: {b: <double>}}` followed by two more samples of that schema
 (the string leaf differs, which is allowed) meets every hypothesis of `chunk_roundtrip` -/
 example : ∃ c, decodePayload (payloadOf
